@@ -194,6 +194,19 @@ def _act(r, i, e, occ):
             if sys.stdout is not before[0] or sys.stderr is not before[1]:
                 r.emit([r.simpid, 'fault', 'nested_not_restored', i, 0])
         return
+    if a == 'stash_stdout':
+        # something started by a test remembers the std streams it finds (a helper thread
+        # entering contextlib.redirect_stdout, a mock.patch that is stopped later) ...
+        r.emit([r.simpid, 'fault', 'stash_stdout', i, 0])
+        r.extra['stash'] = (sys.stdout, sys.stderr)
+        return
+    if a == 'reinstall_stdout':
+        # ... and puts them back at a later moment: in a later test, or in a layer's per-test
+        # hook between two tests
+        if 'stash' in r.extra:
+            r.emit([r.simpid, 'fault', 'reinstall_stdout', i, 0])
+            sys.stdout, sys.stderr = r.extra.pop('stash')
+        return
     if a == 'close_stdout':
         # a test that closes sys.stdout (under --buffer: the runner's capture stream)
         r.emit([r.simpid, 'fault', 'replace_stdout', i, 0])
